@@ -11,7 +11,6 @@ NOT_APPLICABLE = {
     'C04': 'geodesic convexity of runtime bound regions under each space\'s interpolation: a geometric fact about runtime values, no structural rule implies or refutes it (DESIGN 5); its structural ingredients are checked under C11/C05',
     'C09': 'metric axioms over floating-point values for all pairs/triples need numeric or symbolic evaluation (a different technique family) (DESIGN 5)',
     'C10': 'shortest-path / constant-speed interpolation is a numeric statement over all state pairs and t; several claimed checks assume it and say so (DESIGN 5)',
-    'C14': 'distributional claim; nothing in the shape of the code bounds a goodness-of-fit statistic; the generator-forwarding ingredient is checked under C07/C13 (DESIGN 5)',
 }
 
 exec(open(os.path.join(HERE, 'manifest_table.py')).read())
